@@ -335,3 +335,13 @@ def run_case(case):
             "distinct_observations": set(seen),
         },
     )
+
+
+def sanity(summary, tier):
+    x = summary["extra"]
+    probs = []
+    if x.get("schedules_with_1_preemption", 0) < 100 or x.get("schedules_with_2_preemptions", 0) < 1000:
+        probs.append("too few preempted schedules explored")
+    if len(x.get("distinct_observations", ())) < 10:
+        probs.append("schedules hardly differ in what they observe: nothing collided")
+    return probs
